@@ -3,8 +3,9 @@
     runs that reuse one controller object across a reset with a re-declared load).  Proved over the reals, for parameters in any
     units: ConstantPWM's window; ReachAngularPosition's threshold and value; StartLimitCurrent's value, that it is a root of the
     motor's own current law, and hence that the documented motor characteristic (C08) yields exactly the limit current at that
-    duty cycle.  StartProportionalToAngularPosition's ramp is NOT carried through the quantity layer here (_partial: correspondence
-    + the search oracle, which recomputes every rule's proposal from the recorded state). *)
+    duty cycle; StartProportionalToAngularPosition's ramp and its minimum duty cycle (computed from the FIRST instant's load torque,
+    user's fallback exactly when the computed value is zero).  Windows whose edges are within the comparison band of C05 are as
+    the quantity comparisons decide them (finding D5). *)
 From Coq Require Import ZArith QArith Reals Lra String List Bool PrimFloat.
 From GP Require Import ArithDef FloatUtil UnitsCore PyUnits RealArith Spec UnitsR QOps QOpsR Motor MotorR Solver RulesR Examples.
 From GP.gen Require Import UnitsGen.
@@ -52,6 +53,21 @@ Theorem C15_limit_current_is_met : forall W0 TM I0 IM ILIM w D : R, 0 < TM -> 0 
   I_code TM I0 IM (T_doc W0 TM I0 IM w D) D = ILIM.
 Proof. exact limit_current_is_met. Qed.
 
+(** StartProportionalToAngularPosition: while theta <= target the linear ramp from the minimum duty cycle pm to 1; the computed minimum
+    duty cycle uses the motor load torque of the FIRST recorded instant (the present one on a fresh start), and the user's fallback
+    is used exactly when the computed value is zero *)
+Theorem C15_proportional_value : forall (c : @chain RA) (w : @view RA) enc (target p i0 imax : qty RA) mult pmin TM TG L P I0 IM v,
+  m_i0 (c_motor c) = Some i0 -> m_imax (c_motor c) = Some imax ->
+  si (m_Tmax (c_motor c)) = Ok TM -> si target = Ok TG -> si p = Ok P -> si i0 = Ok I0 -> si imax = Ok IM ->
+  si (match w_first_ltq0 w with Some x => x | None => w_ltq0 w end) = Ok L ->
+  qk i0 = KCurrent -> qk imax = KCurrent ->
+  nth_error (w_pos w) enc = Some p ->
+  apply_rule c w (RProp enc target mult pmin) = Ok (Some v) ->
+  let eta := spur_eff c in
+  let computed := mult * (1 / eta * (L / TM) * ((IM - I0) / IM) + I0 / IM) in
+  eta <> 0 /\ TM <> 0 /\ IM <> 0 /\ TG <> 0 /\
+  exists pm, (computed <> 0 -> pm = computed) /\ (computed = 0 -> pmin = Some pm) /\ v = (1 - pm) * P / TG + pm.
+Proof. exact rule_prop_value. Qed.
 Example C15_nonvacuous : Nat.eqb (count_locked (ex_final true 5)) 7 = true.
 Proof. vm_compute. reflexivity. Qed.
 
